@@ -1,12 +1,163 @@
 import Driver.Util
-open Drv
+import Faithful.Lib.Frames
+import Faithful.Lib.Hash
+open Drv Frames
+abbrev BytesL := List UInt8
 
+/-! model side of the C14 line protocol (three harness runs share it: packages tooling, accum, main).
+
+```
+case <text…>                                  → ok          (forgets every frame, object and known payload)
+frame <id> <index|-> <total|-> <hash|-> <datahex|-> <next ids, comma separated|-|[]>   → ok
+del <id>                                      → ok          (the store no longer holds the frame)
+expect …                                      → ok          (oracle bookkeeping of the harness, not modelled)
+load <id>                                     → ok <len> <xxhash64> | err:get | err:count | err:hash | hang
+loadnd <id> <answer of the real code>         → member | notmember:<set>   (duplicate / missing indices: the
+                                                 unstable sort may give any element of `Frames.outcomes`)
+verify <hash> <datahex>                       → ok | err    (`ipldbindcode.VerifyHash`)
+sums <datahex>                                → <crc64 iso> <fnv1a64>
+known <len> <xxh of compressed> <xxh of content>  → ok      (zstd oracle table: these compressed bytes decode)
+push <id> | pushtx <id> | pushother           → ok          (accum: append an object to the block's object list)
+run                                           → ok a;b;… | err:<class>     (`ObjectsToTransactionsAndMetadata`)
+txmeta <data id> <meta id>                    → ok <len> <xxh> | <len> <xxh>  | err:data:<c> | err:meta:<c> | err:zstd
+```
+-/
 namespace DrvC14
 
-/-- model side of the C14 line protocol: one answer line per op line -/
+def unhexFast (s : String) : BytesL := Id.run do
+  if s = "-" then return []
+  let b := s.toUTF8
+  let hv (c : UInt8) : UInt8 :=
+    if c ≥ 48 ∧ c ≤ 57 then c - 48 else if c ≥ 97 ∧ c ≤ 102 then c - 87 else if c ≥ 65 ∧ c ≤ 70 then c - 55 else 0
+  let mut out : Array UInt8 := Array.mkEmpty (b.size / 2)
+  let mut i := 0
+  while i + 1 < b.size do
+    out := out.push (hv (b.get! i) * 16 + hv (b.get! (i+1)))
+    i := i + 2
+  return out.toList
+
+structure St where
+  frames : List (Cid × Frame) := []      -- latest first; `del` removes
+  known : List (Nat × UInt64) := []
+  objs : Array Obj := #[]
+
+def optInt (s : String) : Option Int := if s = "-" then none else s.toInt?
+def optNat (s : String) : Option Nat := if s = "-" then none else s.toNat?
+
+def parseNext (s : String) : List Cid :=
+  if s = "-" ∨ s = "[]" then [] else (s.splitOn ",").filterMap (·.toNat?)
+
+def digest (b : BytesL) : String := s!"{b.length} {hexNat (H.xxhash64 b).toNat 16}"
+
+def showErr : Err → String
+  | .get => "err:get"
+  | .count => "err:count"
+  | .hash => "err:hash"
+  | .fuel => "hang"
+
+def errClass : Err → String
+  | .get => "get"
+  | .count => "count"
+  | .hash => "hash"
+  | .fuel => "hang"
+
+def showRes : Res BytesL → String
+  | .ok b => "ok " ++ digest b
+  | .err e => showErr e
+
+def S : SortFn := SortFn.merge
+
+def fuelOf (st : St) : Nat := st.frames.length + 2
+
+def isKnown (st : St) (b : BytesL) : Bool :=
+  st.known.any fun (l, x) => l == b.length && x == H.xxhash64 b
+
+def parseFrame (ws : List String) : Option (Cid × Frame) :=
+  match ws with
+  | [id, ix, tot, h, d, nx] =>
+    some (id.toNat!, { index := optInt ix, total := optInt tot, hash := optNat h, data := unhexFast d, next := parseNext nx })
+  | _ => none
+
+/-- `ObjectsToTransactionsAndMetadata` followed, per transaction, by the zstd oracle; the model's `accRun`
+is run on the prefix ending at each transaction so that the first failing step in stream order wins -/
+def runAccum (st : St) : String := Id.run do
+  let objs := st.objs.toList
+  let mut outs : Array String := #[]
+  let mut i := 0
+  for o in objs do
+    i := i + 1
+    match o with
+    | .tx _ =>
+      match accRun Real.hashes S.sort (fuelOf st) [] (objs.take i) with
+      | .err e => return "err:" ++ errClass e
+      | .ok bs =>
+        let b := bs.getLastD []
+        if b.isEmpty then outs := outs.push "empty"
+        else if isKnown st b then outs := outs.push (digest b)
+        else return "err:zstd"
+    | _ => pure ()
+  return "ok " ++ ";".intercalate outs.toList
+
+def step (st : St) (l : String) : St × String :=
+  match words l with
+  | "case" :: _ => ({}, "ok")
+  | "expect" :: _ => (st, "ok")
+  | "frame" :: rest =>
+    match parseFrame rest with
+    | some (c, f) => ({ st with frames := (c, f) :: st.frames }, "ok")
+    | none => (st, "bad-op")
+  | ["del", id] => ({ st with frames := st.frames.filter (·.1 != id.toNat!) }, "ok")
+  | ["load", id] =>
+    match lookup st.frames id.toNat! with
+    | none => (st, "nofirst")
+    | some first => (st, showRes (load Real.hashes S.sort (lookup st.frames) (fuelOf st) first))
+  | ["loadnd", id, a, b, c] => nd st id (a ++ " " ++ b ++ " " ++ c)
+  | ["loadnd", id, a] => nd st id a
+  | ["verify", h, d] => (st, if verifyHash Real.hashes (unhexFast d) h.toNat! then "ok" else "err")
+  | ["sums", d] =>
+    let b := unhexFast d
+    (st, s!"{(Real.crc64 b).toNat} {(Real.fnv1a b).toNat}")
+  | ["known", len, xp, _] => ({ st with known := (len.toNat!, UInt64.ofNat (unhexNat xp)) :: st.known }, "ok")
+  | ["push", id] =>
+    match lookup st.frames id.toNat! with
+    | none => (st, "noframe")
+    | some f => ({ st with objs := st.objs.push (.frame id.toNat! f) }, "ok")
+  | ["pushtx", id] =>
+    match lookup st.frames id.toNat! with
+    | none => (st, "noframe")
+    | some f => ({ st with objs := st.objs.push (.tx f) }, "ok")
+  | ["pushother"] => ({ st with objs := st.objs.push .other }, "ok")
+  | ["run"] => ({ st with objs := #[] }, runAccum st)
+  | ["txmeta", d, m] =>
+    match lookup st.frames d.toNat!, lookup st.frames m.toNat! with
+    | some fd, some fm =>
+      match load Real.hashes S.sort (lookup st.frames) (fuelOf st) fd with
+      | .err e => (st, "err:data:" ++ errClass e)
+      | .ok bd =>
+        match load Real.hashes S.sort (lookup st.frames) (fuelOf st) fm with
+        | .err e => (st, "err:meta:" ++ errClass e)
+        | .ok bm =>
+          if bm.isEmpty then (st, s!"ok {digest bd} | empty")
+          else if isKnown st bm then (st, s!"ok {digest bd} | {digest bm}")
+          else (st, "err:zstd")
+    | _, _ => (st, "nofirst")
+  | _ => (st, "bad-op")
+where
+  unhexNat (s : String) : Nat := s.toList.foldl (fun a c => a * 16 + hexVal c) 0
+  nd (st : St) (id : String) (answer : String) : St × String :=
+    match lookup st.frames id.toNat! with
+    | none => (st, "nofirst")
+    | some first =>
+      let outs := (outcomes Real.hashes (lookup st.frames) (fuelOf st) first).map showRes
+      if outs.contains answer then (st, "member")
+      else (st, "notmember:" ++ "|".intercalate outs.eraseDups)
+
 def run (lines : Array String) : IO Unit := do
   let out ← IO.getStdout
-  for _ in lines do
-    out.putStrLn "unimplemented"
+  let mut st : St := {}
+  for l in lines do
+    let (st', o) := step st l
+    st := st'
+    out.putStrLn o
 
 end DrvC14
